@@ -61,6 +61,63 @@ def builder_reuse(R, B, r, W):
     R.count('builder_reuse')
 
 
+def derived_use(R, B, r, base, W):
+    """objects derived from a cell are used the way callers use them (a builder made from it gets more references and bits, slices are read, a copy is
+    parsed); afterwards the cell must still be the cell it was - hash, depth, content, recomputed representation"""
+    def use():
+        b = base.to_builder()
+        if b.available_refs:
+            b.store_ref(B.Builder().store_uint(5, 3).end_cell())
+        if b.available_bits >= 2:
+            b.store_uint(2, 2)
+        other = b.end_cell()
+        s = base.begin_parse()
+        while s.remaining_refs:
+            s.load_ref()
+        s.skip_bits(s.remaining_bits)
+        s2 = B.Slice.from_cell(base)
+        s2.load_bits(min(5, s2.remaining_bits))
+        b2 = B.Builder().store_cell(base)
+        if b2.available_refs:
+            b2.store_ref(other)
+        sl = base.copy().begin_parse()
+        sl.to_cell()
+        sl.skip_bits(min(1, sl.remaining_bits))
+    st, e = mon.call(use)
+    if st == 'exc':
+        R.violation(f'derived-use-raises-{type(e).__name__}', f'using objects derived from a cell raised {e!r}', W)
+        return
+    check_cell(R, r, base, 'after-derived-objects-were-used', W)
+    R.count('derived_use')
+
+
+def type_twins(R, B, rng):
+    """one bag holding an exotic cell and an ordinary cell with the very same data bits and references (a library reference and a 264-bit leaf with the same
+    bytes; a pruned branch and its ordinary twin): type is part of the cell, so hashes differ and neither may stand in for the other"""
+    for rep in range(6):
+        h = gen.rand_hash(rng)
+        lib = rc.make_library(h)
+        twin = rc.RC(lib.bits)
+        pr = gen.raw_pruned(rng, 1)
+        ptwin = rc.RC(pr.bits)
+        for order in ((lib, twin, pr, ptwin), (twin, lib, ptwin, pr), (ptwin, twin, pr, lib)):
+            root = rc.RC(gen.rand_bits(rng, 9), order)
+            W = {'class': 'type-twins', 'boc': rc.encode_boc([root])}
+            for kw in (dict(), dict(has_idx=True, has_crc=True), dict(with_hashes=lambda c: c.mask in (0, 1))):
+                data = rc.encode_boc([root], **kw)
+                st, c = mon.call(B.Cell.one_from_boc, data)
+                R.count('type_twin_bags')
+                if st == 'exc':
+                    R.violation(f'type-twins-rejected-{type(c).__name__}', f'a bag with an exotic cell and its ordinary twin is rejected: {c!r}', W)
+                    continue
+                R.check(c.hash == root.hash and [x.hash for x in c.refs] == [x.hash for x in order] and [x.type_ for x in c.refs] == [x.type for x in order],
+                        'type-twins-confused', 'exotic cell and ordinary cell with equal data came back as the same cell / with the wrong type or hash', W)
+                st2, again = mon.call(lambda: B.Cell.one_from_boc(c.to_boc()))
+                R.check(st2 == 'ok' and again.hash == root.hash and [x.type_ for x in again.refs] == [x.type for x in order], 'type-twins-confused-on-reserialisation',
+                        're-serialising a bag with type twins merges or retypes them', W)
+            R.case(mon.fp('twins', root.hash))
+
+
 def forged_stored_hashes(R, B, r, rng, W):
     """a bag of cells whose optional stored hash / depth block is untrue: the parser may refuse it, but a cell it returns must report
     the hash and depth of its content"""
@@ -133,6 +190,7 @@ def one(R, B, r, heavy=True, sample=None):
             R.violation(f'builder-reuse-raises-{type(e).__name__}', f'end_cell / store / end_cell on one builder raised {e!r}', W)
         if len(gen.all_cells(r)) < 200:
             forged_stored_hashes(R, B, r, R.rng, W)
+        derived_use(R, B, r, base, W)
     R.case(mon.fp('c', r.hash), sample=sample)
     R.cover('bitlens', len(r.bits))
     R.cover('refcounts', len(r.refs))
@@ -250,6 +308,8 @@ def run(R):
         R.count('dags')
     equality_pool(R, B, rng, 25 if quick else 150)
     if R.shard == 0:
+        type_twins(R, B, rng)
+    if R.shard == 0:
         depth_limits(R, B, rng, full=not quick)
     inv.revalidate('end of run')
     inv.uninstall()
@@ -259,6 +319,7 @@ def run(R):
     R.floor('inv_cells', 1000)
     R.floor('inv_revalidated', 1000)
     R.floor('builder_reuse', 50)
+    R.floor('derived_use', 50)
     R.floor('tag_collision_siblings', 100)
     R.floor('forged_stored_hash', 10)
     R.floor('forged_stored_depth', 10)
